@@ -202,23 +202,26 @@ impl<T: Write + Seek> ShapeWriter<T> {
             return Ok(());
         }
 
-        if self.header.bbox.max.m == f64::NEG_INFINITY && self.header.bbox.min.m == f64::INFINITY {
-            self.header.bbox.max.m = 0.0;
-            self.header.bbox.min.m = 0.0;
+        // Ranges nothing was written to are stored as 0, in a copy: the running
+        // box must keep growing from its initial state after an intermediate finalize.
+        let mut hdr = self.header;
+        if hdr.bbox.max.m == f64::NEG_INFINITY && hdr.bbox.min.m == f64::INFINITY {
+            hdr.bbox.max.m = 0.0;
+            hdr.bbox.min.m = 0.0;
         }
 
-        if self.header.bbox.max.z == f64::NEG_INFINITY && self.header.bbox.min.z == f64::INFINITY {
-            self.header.bbox.max.z = 0.0;
-            self.header.bbox.min.z = 0.0;
+        if hdr.bbox.max.z == f64::NEG_INFINITY && hdr.bbox.min.z == f64::INFINITY {
+            hdr.bbox.max.z = 0.0;
+            hdr.bbox.min.z = 0.0;
         }
 
         self.shp_dest.seek(SeekFrom::Start(0))?;
-        self.header.write_to(&mut self.shp_dest)?;
+        hdr.write_to(&mut self.shp_dest)?;
         self.shp_dest.seek(SeekFrom::End(0))?;
         self.shp_dest.flush()?;
 
         if let Some(shx_dest) = &mut self.shx_dest {
-            let mut shx_header = self.header;
+            let mut shx_header = hdr;
             shx_header.file_length = header::HEADER_SIZE / 2
                 + ((self.rec_num - 1) as i32 * 2 * size_of::<i32>() as i32 / 2);
             shx_dest.seek(SeekFrom::Start(0))?;
